@@ -2,6 +2,7 @@ import Mp.CueSteps
 import Mp.CueProofs
 import Mp.Tree
 import Mp.CueAstProofs
+import Mp.CueAstFProofs
 /-! C13 — CueValidate accepts a key path iff the schema declares it: property theorems (proved in Mp.CueProofs). -/
 #print axioms Mp.fvp_snoc
 #print axioms Mp.validate_walk
@@ -21,3 +22,8 @@ import Mp.CueAstProofs
 #print axioms Mp.validateKeys_acc_found
 #print axioms Mp.vParts_idents
 #print axioms Mp.vTop_key_path
+#print axioms Mp.stoppedF_keeps
+#print axioms Mp.filter_on_non_list
+#print axioms Mp.filter_error_ends_walk
+#print axioms Mp.clean_filter_transparent
+#print axioms Mp.filter_after_call
